@@ -481,6 +481,22 @@ impl Runner {
             Runner::Sampled(s, rate) => outcome_of(s.format_with_sample_rate(entry, out, *rate)),
         }
     }
+    /// One call in an explicit mode on a sampling formatter: `None` = the unsampled
+    /// `Format::format` route of the same formatter ("bypass"), `Some(rate)` = that sample rate.
+    /// On a plain formatter the mode is ignored.
+    pub fn format_in_mode(&mut self, entry: &EntryD, out: &mut impl std::io::Write, mode: Option<f32>) -> Outcome {
+        let compiled = entry.compile();
+        match self {
+            Runner::Plain(emf) => outcome_of(emf.format(&compiled, out)),
+            Runner::Sampled(s, _) => match mode {
+                None => outcome_of(Format::format(s, &compiled, out)),
+                Some(rate) => outcome_of(s.format_with_sample_rate(&compiled, out, rate)),
+            },
+        }
+    }
+    pub fn is_sampled(&self) -> bool {
+        matches!(self, Runner::Sampled(..))
+    }
 }
 
 /// One-shot: fresh formatter from `pristine`, format one entry.
